@@ -272,6 +272,8 @@ class ModbusTransactionManager(object):
                 min_size = 5
             elif isinstance(self.client.framer, ModbusBinaryFramer):
                 min_size = 3
+            elif isinstance(self.client.framer, ModbusTlsFramer):
+                min_size = 1    # no header: the function code comes first
             else:
                 min_size = expected_response_length
 
@@ -293,7 +295,8 @@ class ModbusTransactionManager(object):
                         raise InvalidMessageReceivedException(
                             "Non-hex characters in ASCII frame header: %r"
                             % read_min)
-                elif isinstance(self.client.framer, ModbusBinaryFramer):
+                elif isinstance(self.client.framer, (ModbusBinaryFramer,
+                                                     ModbusTlsFramer)):
                     func_code = byte2int(read_min[-1])
                 else:
                     func_code = -1
